@@ -450,12 +450,15 @@ func s3(p *core.Program, a *spec.Anchors, r *core.Report, writes, reads bool) {
 			return false
 		}
 		for _, fn := range p.ModuleFunctions(core.PkgCPU) {
-			if fn.Parent() != nil || fn.Signature.Recv() == nil || fn.Object() == nil || !fn.Object().Exported() {
+			if fn.Parent() != nil || fn.Object() == nil || !fn.Object().Exported() {
 				continue
 			}
-			pt, ok := types.Unalias(fn.Signature.Recv().Type()).(*types.Pointer)
-			if !ok || !isCPUT(pt.Elem()) {
-				continue
+			// exported methods of the tensor type and the exported constructors of the package (Full, TensorOf, Concat, …)
+			if fn.Signature.Recv() != nil {
+				pt, ok := types.Unalias(fn.Signature.Recv().Type()).(*types.Pointer)
+				if !ok || !isCPUT(pt.Elem()) {
+					continue
+				}
 			}
 			res := fn.Signature.Results()
 			if res.Len() == 0 || !isTensorT(res.At(0).Type()) || fn.Name() == "Gradient" {
